@@ -271,3 +271,56 @@ def histories(c, rec):
             raise Violation("output_epochs", f"committed output epochs {sorted(got)} != expected {sorted(want)} (dt={dt}, output step {out})")
         if len(want - got) > faulty.fired:
             raise Violation("output_epochs", f"output epochs {sorted(want - got)} were never committed although only {faulty.fired} commit fault(s) were injected")
+
+
+# ------------------------------------------------------------------------------------------------
+def _imp_cases():
+    return st.builds(lambda t, dt, n, si: {"start": iso(t), "dt": dt, "n": n, "sensors_imported": si}, eop_instants(margin_days=3),
+                     st.sampled_from([2, 7, 30, 60, 90, 300, 777]), st.integers(2, 10), st.booleans())
+
+
+@PROP.clause("imported_agents", strategy=_imp_cases, quick=64, thorough=1600, shards=16)
+def imported_agents(c, rec):
+    """output database of a run whose agents take their truth from an importer database: same audit (references, duplicates, completeness)"""
+    import os
+    import shutil
+    import tempfile
+
+    from resonaate.physics.time.stardate import datetimeToJulianDate
+    from vf.props import c19
+    from vf.runner import Skip
+
+    t0 = parse(c["start"])
+    dt, n = c["dt"], c["n"]
+    if t0.second or dt not in (30, 60, 300):
+        rec.nontrivial([c["start"], dt, n, c["sensors_imported"]])
+    tmp = tempfile.mkdtemp(prefix="vf-c09-")
+    try:
+        src = os.path.join(tmp, "source.sqlite3")
+        tgts, sens = c19._agents(t0)
+        mk = lambda **kw: kit.scenario_config(t0, t0 + timedelta(seconds=(n + 1) * dt), dt, [kit.engine(1, sens, tgts)], seq_filter={"alpha": 0.5}, **kw)  # noqa: E731
+        try:
+            sc = kit.build(mk(), db_file=src)
+            sc.propagateTo(datetimeToJulianDate(t0 + timedelta(seconds=n * dt)))
+            kit.fresh_db()
+            sc = kit.build(mk(propagation={"target_realtime_propagation": False, "sensor_realtime_propagation": not c["sensors_imported"]}),
+                           importer_db_path=f"sqlite:///{src}")
+            expected = {0: {"truth": {a: np.asarray(ag.eci_state, dtype=np.float64).tobytes() for a, ag in list(sc.target_agents.items()) + list(sc.sensor_agents.items())},
+                            "est": {a: (np.asarray(e.eci_state, dtype=np.float64).tobytes(), np.asarray(e.error_covariance, dtype=np.float64).tobytes()) for a, e in sc.estimate_agents.items()}}}
+            orig_save = sc.saveDatabaseOutput
+
+            def save():
+                sec = int(round(float(sc.clock.time)))
+                snap = {"truth": {a: np.asarray(ag.eci_state, dtype=np.float64).tobytes() for a, ag in list(sc.target_agents.items()) + list(sc.sensor_agents.items())},
+                        "est": {a: (np.asarray(e.eci_state, dtype=np.float64).tobytes(), np.asarray(e.error_covariance, dtype=np.float64).tobytes()) for a, e in sc.estimate_agents.items()}}
+                orig_save()
+                expected[sec] = snap
+
+            sc.saveDatabaseOutput = save
+            sc.propagateTo(datetimeToJulianDate(t0 + timedelta(seconds=n * dt)))
+        except np.linalg.LinAlgError:
+            raise Skip("UKF covariance not positive definite")
+        _audit(c, t0, expected, rec, "importing run")
+        kit.fresh_db()
+    finally:
+        shutil.rmtree(tmp, ignore_errors=True)
